@@ -79,7 +79,8 @@ Theorem C01_cancelled_actor_exits : forall s b r,
 Proof. exact cancelled_actor_exits. Qed.
 Print Assumptions C01_cancelled_actor_exits.
 
-Theorem C01_done_container_returns : forall s, done_seen s = true -> is_idle s = true -> enabled s CT_EXIT.
+Theorem C01_done_container_returns : forall s, done_seen s = true -> is_idle s = true ->
+  (auto_mode s = false \/ final_done s = true \/ errored s = true) -> enabled s CT_EXIT.
 Proof. exact done_container_returns. Qed.
 Print Assumptions C01_done_container_returns.
 
